@@ -2,5 +2,5 @@ CONSTANTS
   MaxParams = 2
   MaxLinks = 1
 SPECIFICATION Spec
-INVARIANTS ChainTheorem EmitCase
+INVARIANTS ChainTheorem RecTheorem EmitCase
 CHECK_DEADLOCK FALSE
